@@ -277,7 +277,9 @@ CHECKS = {
        "the peer of this role send yields exactly one error event and leaves the state unchanged; a CONNECT or CONNACK frame on an established "
        "connection is a protocol error that delivers nothing and leaves the session state equal; an undetermined server rejects every first "
        "frame other than a CONNECT of level 4/5 without changing state, and after a good CONNECT its state and events are EQUAL to those of a "
-       "server created with that version, hence equal events for every continuation of any length (determinism). Tie: exhaustive 460-cell "
+       "server created with that version, hence equal events for every continuation of any length (determinism). THE PAIR (Conn/GateDual.v): "
+       "the receive gate is dual to the send gate - whatever a client-role endpoint passes to the transport a server- or any-role endpoint of "
+       "the same version lets through its receive gate and vice versa (C17_sent_passes_peer_gate, C17_rule_is_can_receive). Tie: exhaustive 460-cell "
        "receive matrix + random histories through the projection correspondence and a monitor using only the rule table and the framing model.",
   ref="DESIGN.md §3 C17",
   note=CONN_NOTE + " A CONNACK while Disconnected (no CONNECT sent) is accepted by the library by design of its tests; the property speaks of an established connection and so do the theorems.",
